@@ -67,6 +67,10 @@ type Contract struct {
 	Notes     []string
 	ParamName []string // optional override of parameter names (extern)
 	Uses      []string // lemmas (proved elsewhere) assumed while verifying this function
+	Opaque2   []string // spec functions whose bodies are hidden while verifying this function
+	Holds     []string // lock fields of the receiver the caller holds ("holds mu" / "holds mu:r")
+	Unshared  bool     // object under construction: lockset checks off
+	GhostSet  []Clause // "ghost_assign x.f = expr": ghost assignments performed at every normal exit
 }
 
 type PureFn struct {
@@ -74,6 +78,7 @@ type PureFn struct {
 	Params []Param
 	Ret    string
 	Body   string // empty: uninterpreted
+	Macro  bool   // heap-dependent predicate, expanded at use sites
 	Pkg    string
 	File   string
 	Line   int
@@ -105,6 +110,7 @@ type LockDecl struct {
 	Field     string
 	Protects  []string
 	Invariant string
+	RWrites   []string // fields that may be written under the read lock (declared, reported in evidence)
 	Pkg       string
 	File      string
 	Line      int
@@ -205,8 +211,11 @@ func (db *SpecDB) LoadFile(path, pkgPath string) error {
 		case "end":
 			cur = nil
 			continue
-		case "pure", "uf":
+		case "pure", "uf", "predicate":
 			p, err := parsePure(rest, word == "uf")
+			if err == nil && word == "predicate" {
+				p.Macro = true
+			}
 			if err != nil {
 				return fmt.Errorf("%s:%d: %v", path, ln, err)
 			}
@@ -275,8 +284,15 @@ func (db *SpecDB) LoadFile(path, pkgPath string) error {
 			j := 1
 			if j < len(fs) && fs[j] == "protects" {
 				j++
-				for j < len(fs) && fs[j] != "invariant" {
+				for j < len(fs) && fs[j] != "invariant" && fs[j] != "rwrites" {
 					ld.Protects = append(ld.Protects, strings.Trim(fs[j], ","))
+					j++
+				}
+			}
+			if j < len(fs) && fs[j] == "rwrites" {
+				j++
+				for j < len(fs) && fs[j] != "invariant" {
+					ld.RWrites = append(ld.RWrites, strings.Trim(fs[j], ","))
 					j++
 				}
 			}
@@ -306,7 +322,7 @@ func (db *SpecDB) LoadFile(path, pkgPath string) error {
 			cur.Ensures = append(cur.Ensures, Clause{Kind: word, Text: rest, File: path, Line: ln, Name: label})
 		case "modifies":
 			cur.HasMod = true
-			for _, m := range strings.Split(rest, ",") {
+			for _, m := range splitTop(rest) {
 				m = strings.TrimSpace(m)
 				if m != "" && m != "nothing" {
 					cur.Modifies = append(cur.Modifies, m)
@@ -346,6 +362,14 @@ func (db *SpecDB) LoadFile(path, pkgPath string) error {
 			cur.Notes = append(cur.Notes, rest)
 		case "params":
 			cur.ParamName = strings.Fields(rest)
+		case "opaque":
+			cur.Opaque2 = append(cur.Opaque2, strings.Fields(rest)...)
+		case "holds":
+			cur.Holds = append(cur.Holds, strings.Fields(rest)...)
+		case "unshared":
+			cur.Unshared = true
+		case "ghost_assign":
+			cur.GhostSet = append(cur.GhostSet, Clause{Kind: word, Text: rest, File: path, Line: ln})
 		case "uses":
 			cur.Uses = append(cur.Uses, strings.Fields(rest)...)
 		default:
@@ -430,4 +454,36 @@ func (db *SpecDB) LoadDir(dir string) error {
 		}
 	}
 	return nil
+}
+
+// splitTop splits at commas that are not inside parentheses, brackets or string literals.
+func splitTop(s string) []string {
+	var parts []string
+	depth, last := 0, 0
+	inStr := false
+	for i := 0; i < len(s); i++ {
+		c := s[i]
+		if inStr {
+			if c == '\\' {
+				i++
+			} else if c == '"' {
+				inStr = false
+			}
+			continue
+		}
+		switch c {
+		case '"':
+			inStr = true
+		case '(', '[', '{':
+			depth++
+		case ')', ']', '}':
+			depth--
+		case ',':
+			if depth == 0 {
+				parts = append(parts, s[last:i])
+				last = i + 1
+			}
+		}
+	}
+	return append(parts, s[last:])
 }
